@@ -225,7 +225,8 @@ static void marshal_one_env(MarshalState *st, JanetFuncEnv *env, int flags) {
         Janet *values = env->as.fiber->data + env->offset;
         uint32_t *bitset = janet_stack_frame(values)->func->def->closure_bitset;
         for (int32_t i = 0; i < env->length; i++) {
-            if (1 & (bitset[i >> 5] >> (i & 0x1F))) {
+            /* (functions made by asm have no bitset: every slot may be captured) */
+            if (NULL == bitset || (1 & (bitset[i >> 5] >> (i & 0x1F)))) {
                 marshal_one(st, values[i], flags + 1);
             } else {
                 pushbyte(st, LB_NIL);
